@@ -911,3 +911,84 @@ Proof.
   destruct (median_eq_spec inv B rad ny nx disp mask HB Hrad) as (H1 & H2 & H3 & H4). fold out in H1, H2, H3, H4.
   split; [apply H1|]. split; [apply H2|]. split; [apply H3 | apply H4].
 Qed.
+
+(* ================================================================== an order-free reading of
+   the median: at least half of the values are <= m and at least half are >= m *)
+
+Definition count_le (m : Q) (l : list Q) : nat := length (filter (fun x => Qle_bool x m) l).
+Definition count_ge (m : Q) (l : list Q) : nat := length (filter (fun x => Qle_bool m x) l).
+
+Lemma filter_perm_length : forall (p : Q -> bool) l l', Permutation l l' ->
+  length (filter p l) = length (filter p l').
+Proof.
+  induction 1 as [|x l l' _ IH|x y l|l1 l2 l3 _ IH1 _ IH2]; cbn [filter]; try congruence.
+  - destruct (p x); cbn [length]; congruence.
+  - destruct (p x), (p y); reflexivity.
+Qed.
+
+Lemma filter_all_length : forall (p : Q -> bool) l, (forall x, In x l -> p x = true) ->
+  length (filter p l) = length l.
+Proof.
+  induction l as [|x l IH]; intros H; cbn [filter]; [reflexivity|].
+  rewrite (H x (or_introl eq_refl)). cbn [length]. rewrite IH; [reflexivity|]. intros; apply H; right; assumption.
+Qed.
+
+Lemma count_prefix : forall (p : Q -> bool) s k, (k <= length s)%nat ->
+  (forall i, (i < k)%nat -> p (nth i s 0%Q) = true) -> (k <= length (filter p s))%nat.
+Proof.
+  induction s as [|x r IH]; intros k Hk H; cbn [length] in Hk; [lia|].
+  destruct k as [|k]; [lia|]. cbn [filter]. pose proof (H 0%nat ltac:(lia)) as H0. cbn [nth] in H0. rewrite H0. cbn [length].
+  apply le_n_S. apply IH; [lia|]. intros i Hi. apply (H (S i)). lia.
+Qed.
+
+Lemma count_suffix : forall (p : Q -> bool) s k, (k <= length s)%nat ->
+  (forall i, (k <= i < length s)%nat -> p (nth i s 0%Q) = true) -> (length s - k <= length (filter p s))%nat.
+Proof.
+  induction s as [|x r IH]; intros k Hk H; [cbn; lia|].
+  destruct k as [|k].
+  - rewrite Nat.sub_0_r. apply count_prefix; [lia|]. intros i Hi. apply H. lia.
+  - cbn [length] in *. replace (S (length r) - S k)%nat with (length r - k)%nat by lia.
+    assert (length r - k <= length (filter p r))%nat.
+    { apply IH; [lia|]. intros i Hi. apply (H (S i)). lia. }
+    cbn [filter]. destruct (p x); cbn [length]; lia.
+Qed.
+
+Theorem median_splits : forall m l, is_median m l ->
+  (length l <= 2 * count_le m l)%nat /\ (length l <= 2 * count_ge m l)%nat.
+Proof.
+  intros m l (s & Hp & Hs & Hne & Hm). unfold count_le, count_ge.
+  rewrite <- !(filter_perm_length _ _ _ Hp), <- (Permutation_length Hp).
+  set (n := length s). assert (Hn : (0 < n)%nat) by (destruct s; [congruence | cbn; lia]).
+  assert (Hdiv : (n / 2 < n)%nat) by (apply Nat.div_lt; lia).
+  pose proof (Nat.div_mod n 2 ltac:(lia)) as Hdm. pose proof (Nat.mod_upper_bound n 2 ltac:(lia)) as Hmod.
+  unfold mid in Hm. fold n in Hm.
+  destruct (Nat.odd n) eqn:Eo.
+  - (* odd: m is s[n/2] *)
+    split.
+    + pose proof (count_prefix (fun x => Qle_bool x m) s (n / 2 + 1) ltac:(fold n; lia)) as H.
+      assert (n / 2 + 1 <= length (filter (fun x => Qle_bool x m) s))%nat.
+      { apply H. intros i Hi. apply Qle_bool_iff. rewrite Hm. apply sorted_nth_le; [assumption | fold n; lia]. }
+      apply Nat.odd_spec in Eo. destruct Eo as [k Ek]. lia.
+    + pose proof (count_suffix (fun x => Qle_bool m x) s (n / 2) ltac:(fold n; lia)) as H.
+      assert (n - n / 2 <= length (filter (fun x => Qle_bool m x) s))%nat.
+      { apply H. intros i Hi. apply Qle_bool_iff. rewrite Hm. apply sorted_nth_le; [assumption | fold n; lia]. }
+      lia.
+  - (* even: m is the mean of s[n/2-1] <= s[n/2] *)
+    assert (Hev : n = (2 * (n / 2))%nat).
+    { rewrite <- Nat.negb_even in Eo. apply negb_false_iff, Nat.even_spec in Eo. destruct Eo as [k Ek].
+      rewrite Ek. rewrite Nat.mul_comm, Nat.div_mul by lia. lia. }
+    assert (Hab : (nth (n / 2 - 1) s 0 <= nth (n / 2) s 0)%Q) by (apply sorted_nth_le; [assumption | fold n; lia]).
+    set (a := nth (n / 2 - 1) s 0%Q) in *. set (b := nth (n / 2) s 0%Q) in *.
+    assert (E : ((a + b) / 2 == (a + b) * (1 # 2))%Q) by (unfold Qdiv; reflexivity).
+    rewrite E in Hm. split.
+    + pose proof (count_prefix (fun x => Qle_bool x m) s (n / 2) ltac:(fold n; lia)) as H.
+      assert (n / 2 <= length (filter (fun x => Qle_bool x m) s))%nat.
+      { apply H. intros i Hi. apply Qle_bool_iff.
+        assert (nth i s 0 <= a)%Q by (apply sorted_nth_le; [assumption | fold n; lia]). lra. }
+      lia.
+    + pose proof (count_suffix (fun x => Qle_bool m x) s (n / 2) ltac:(fold n; lia)) as H.
+      assert (n - n / 2 <= length (filter (fun x => Qle_bool m x) s))%nat.
+      { apply H. intros i Hi. apply Qle_bool_iff.
+        assert (b <= nth i s 0)%Q by (apply sorted_nth_le; [assumption | fold n; lia]). lra. }
+      lia.
+Qed.
